@@ -6,6 +6,8 @@ What is PROVED here (each for all histories / schedules, no size bound), and abo
 
 1. process-local store (`Uniflow.Local`, pkg/process/local.go + AddExitHook / Exit): no residue, no
    deadlock, lazy-once, the pinned `Store` deadlock.            `C05.local_*`, `C05.lazy_*`
+   A failing initialiser: nothing is stored, every waiter returns the error, nobody stays blocked.
+                                   `C05.failing_initialiser_stores_nothing`, `C05.failing_initialiser_waiters_get_error`
 2. port endpoint maps (`Uniflow.PortMaps`, pkg/port/inport.go, outport.go): no entry and no open
    endpoint for a terminated process at quiescence, the status-check window, no deadlock. `C05.ports_*`
 3. pump goroutines (`Uniflow.PortMaps.pumps`): the number of running reader / writer pumps equals the
@@ -36,9 +38,10 @@ What is PROVED here (each for all histories / schedules, no size bound), and abo
    Histories of these theorems contain no `Tracer.Receive(w, nil)` (discard – used by hand-written
    nodes such as ext's try / pipe, by no node of pkg/node): C02's protocol and abstract tracer have no
    discard. `C05.tracer_discard_answers_none` (concrete shapes, `decide`) and the harness's
-   fire-and-forget node (driver c05t, every run) cover it; the general statement is the unproved
-   `C05.tracer_no_residue_with_discards_full` (what is missing is said there); the variant of seeded
-   change c05h is `C05.tracer_c05h_residue`.
+   fire-and-forget node (driver c05t, every run) cover concrete shapes; the general statement is
+   `C05.tracer_no_residue_with_discards` (every history with discards: same replies as "discard = answer
+   with nothing", no panic, no residue after the drops), proved by a simulation argument
+   (Proofs/TracerDiscard.lean); the variant of seeded change c05h is `C05.tracer_c05h_residue`.
    That the real loops do end (readers / writers get closed at exit) is C03's teardown.
 
 What stays OBSERVED by the harness (harness/c05/flow.go, after a settle loop, on real workflows): that
@@ -55,8 +58,10 @@ Helper lemmas and the inductive invariants are in `Uniflow/Proofs/{Local,PortMap
 -/
 import Uniflow.Proofs.Local
 import Uniflow.Proofs.PortMaps
+import Uniflow.Proofs.LocalFail
 import Uniflow.Proofs.AgentProc
 import Uniflow.Proofs.TracerExit
+import Uniflow.Proofs.TracerDiscard
 import Uniflow.Model.TracerC05c
 import Uniflow.Model.TracerC05h
 
@@ -894,33 +899,6 @@ is concrete (`decide`); the general statement is `C05.tracer_no_residue_with_dis
 namespace C05tracer
 open Uniflow.Tracer Uniflow.ATracer
 
-/-- histories with discards, on the tracer model … -/
-inductive DCall where
-  | base (c : Call)
-  | discard (w : Wid)
-
-def tdcall (t : T) : DCall → T × List Ev
-  | .base c => tcall t c
-  | .discard w => receiveW true t w none
-
-/-- … and what a discard means abstractly: the packet is answered with nothing (`packet.None`). -/
-def adcall (a : A) : DCall → A × List Ev
-  | .base c => acall a c
-  | .discard w => aanswer a w .empty
-
-def tdrun : T → List DCall → T × List Ev
-  | t, [] => (t, [])
-  | t, c :: cs => let r := tdcall t c; let r' := tdrun r.1 cs; (r'.1, r.2 ++ r'.2)
-
-def adrun : A → List DCall → A × List Ev
-  | a, [] => (a, [])
-  | a, c :: cs => let r := adcall a c; let r' := adrun r.1 cs; (r'.1, r.2 ++ r'.2)
-
-def DProtocol : A → List DCall → Prop
-  | _, [] => True
-  | a, .base c :: cs => Pre a c ∧ DProtocol (acall a c).1 cs
-  | a, .discard w :: cs => DProtocol (aanswer a w .empty).1 cs
-
 /-- answers and events as numbers (the payload type has no decidable equality): `None` ↦ 0,
 atom k ↦ k + 1 -/
 def ansTag : Ans → Nat
@@ -983,15 +961,14 @@ theorem C05.tracer_c05h_residue :
   decide
 
 open Uniflow.Tracer Uniflow.ATracer C05tracer in
-/-- Full statement for histories WITH discards: the tracer model (with `receiveW … none`) sends the
-replies of the abstract tracer in which a discard is an empty answer, and after the loop-end drops
-nothing mentions the process. NOT proved: `TRel` (C02's refinement relation, used by every lemma of
-Proofs/ATracer.lean) demands `receives[k] = [some None]` for a request completed by an empty answer,
-whereas after a discard the map holds `receives[k] = []` for as long as the request waits behind an
-earlier one (`twoWriters.take 5` above); the two agree on `hasNil` and on `joinCells`, which is all
-`resolve` reads, so the repair is to relax `TRel.recv` to that equivalence and re-run the refinement
-proof – a change to C02's ~2000 lines, not done here. Checked instead: the three shapes above by
-`decide`, and the harness's fire-and-forget node against this very model on every run. -/
+/-- Full statement for histories WITH discards (`Tracer.Receive(w, nil)` anywhere in the history, any
+number of them, also for requests that then wait behind earlier ones or get further packets linked):
+the tracer model sends exactly the replies of the abstract tracer in which a discard is an answer with
+nothing (`packet.None`), never panics, and after the loop-end `Drop`s nothing mentions the process.
+Proved below (`C05.tracer_no_residue_with_discards`) by simulation, without touching C02's refinement:
+the run with discards and the run of the same history with every discard written as `Receive(w, None)`
+keep tracers that are equal except for extra `some None` cells in rows of `receives` of the second
+(`Sim`, `sim_run` in Proofs/TracerDiscard.lean), and nothing `resolve` reads of a row sees such cells. -/
 def C05.tracer_no_residue_with_discards_full : Prop :=
   ∀ (cs : List DCall), DProtocol {} cs →
     (tdrun {} cs).2 = (adrun {} cs).2 ∧ (tdrun {} cs).1.panic = false ∧
@@ -1000,3 +977,148 @@ def C05.tracer_no_residue_with_discards_full : Prop :=
       (∀ r, Rp r = true → aget (dropAll ws (tdrun {} cs).1).reads r = none) ∧
       (∀ w, Wp w = true → aget (dropAll ws (tdrun {} cs).1).writes w = none) ∧
       (∀ k r, aget (dropAll ws (tdrun {} cs).1).reader k = some r → Rp r = false)
+
+open Uniflow.Tracer Uniflow.ATracer C05tracer in
+/-- **Tracer: no residue, histories with discards.** -/
+theorem C05.tracer_no_residue_with_discards : C05.tracer_no_residue_with_discards_full := by
+  intro cs hp
+  obtain ⟨s1, s2⟩ := sim_run cs {} {} {} (sim_refl _) trel_init inv_init hp
+  have hp' := protocol_shadow cs {} hp
+  obtain ⟨e1, hrel, _⟩ := run_refines (shadow cs) {} {} trel_init inv_init hp'
+  refine ⟨by rw [s2, e1, adrun_shadow], by rw [s1.panic]; exact hrel.panic, ?_⟩
+  intro Rp Wp ws hset hws
+  rw [adrun_shadow] at hset
+  obtain ⟨r1, r2, r3, _⟩ := C05.tracer_no_residue_after_drops (shadow cs) hp' Rp Wp ws hset hws
+  have hd := sim_dropAll ws s1
+  exact ⟨by rw [hd.reads]; exact r1, by rw [hd.writes]; exact r2, by rw [hd.reader]; exact r3⟩
+
+open Uniflow.Tracer Uniflow.ATracer C05tracer in
+/-- Non-vacuity: a history with three discards – a request forwarded unchanged and discarded while it
+waits behind an earlier one, a further packet linked to that already "complete" request and discarded
+too, and a linked packet of the earlier request discarded – follows the protocol, is settled, and after
+the drops the tracer is empty; the replies are `None` for both requests, in read order. After the
+first discard the two simulated tracers really differ (row of packet 2: `[]` against `[some None]`). -/
+theorem C05.tracer_no_residue_with_discards_nonvacuous :
+    let cs : List DCall :=
+      [.base (.read 0 1), .base (.link 1 11), .base (.write (some 1) 11 (.pay (.atom 5)) true),
+       .base (.read 0 2), .base (.write (some 2) 2 (.pay (.atom 2)) true), .discard 2,
+       .base (.link 2 12), .base (.write (some 2) 12 (.pay (.atom 6)) true), .discard 2,
+       .discard 1]
+    protoB {} (shadow cs) = true ∧
+    (∀ x ∈ (adrun {} cs).1.reqs, stOK (fun _ => true) x.st = true) ∧
+    (tdrun {} (cs.take 6)).2.length = 0 ∧ (getL (tdrun {} (cs.take 6)).1.receives 2).length = 0 ∧
+    (getL (trun {} (shadow (cs.take 6))).1.receives 2).length = 1 ∧
+    (tdrun {} cs).2.map evTag = [(0, 0), (0, 0)] ∧ isEmpty (dropAll [1, 2] (tdrun {} cs).1) = true := by
+  decide
+
+/-! ## `LoadOrStore` with a failing initialiser -/
+
+section FailingInitialiser
+open Uniflow.Local
+
+/-- inside a `LoadOrStore(p, …)`, before anything could be published -/
+def Uniflow.Local.inLos (p : Pid) : Pc → Bool
+  | .rd (.los1 q _ _) => q = p
+  | .want (.los2 q _ _) => q = p
+  | .hold (.los2 q _ _) => q = p
+  | .lzWant q _ => q = p
+  | .lzFn q _ => q = p
+  | .lzRel q _ => q = p
+  | _ => false
+
+/-- **A failing initialiser stores nothing.** For every schedule in which every initialiser handed to
+`LoadOrStore(p, …)` fails and nobody calls `Store(p, …)` (anything else is allowed: other processes,
+Delete, Close, Exit, hooks, any number of concurrent `LoadOrStore(p)`): the store never holds a value
+for `p`, and every lazy object ever created for `p` is a failing one (the cached error). -/
+theorem C05.failing_initialiser_stores_nothing (sched : List Act) (p : Pid)
+    (h : ∀ a ∈ sched, a.failOnly p = true) :
+    (run false init sched).eager p = none ∧
+    (∀ L, L < (run false init sched).nlz → ((run false init sched).lz L).proc = p →
+      ((run false init sched).lz L).fails = true) :=
+  let hf := fail_run sched p init (fail_init p) allInv_init h
+  ⟨hf.ev, hf.lzs⟩
+
+/-- **Every waiter gets the error.** In such a schedule, whatever step a thread inside `LoadOrStore(p)`
+takes next: it stays inside `LoadOrStore(p)` without a result, or it returns – and then it returns the
+error (`Ev.val none`), never a value; it never reaches the publishing section. Together with
+`C05.local_no_deadlock` / `C05.local_holders_progress` (somebody can always move; whoever holds the lazy
+object's mutex can) no waiter is left blocked, and by `C05.lazy_inits_le_created` each lazy object's
+initialiser ran at most once. (Seeded change c05j – `lazy.Do` returning on the error path without
+unlocking – is the code failing exactly this; the model releases in `lzRel` on both paths.) -/
+theorem C05.failing_initialiser_waiters_get_error (sched : List Act) (p : Pid)
+    (h : ∀ a ∈ sched, a.failOnly p = true) (t : Tid) (s' : State) (e : Ev)
+    (hin : inLos p ((run false init sched).thr t) = true)
+    (hs : step false (run false init sched) t = some (s', e)) :
+    (e = .tau ∧ inLos p (s'.thr t) = true) ∨ (e = .val none ∧ s'.thr t = .idle) := by
+  have hf := fail_run sched p init (fail_init p) allInv_init h
+  have hw := (allInv_reach sched).wf
+  generalize run false init sched = s at hf hw hin hs
+  cases hpc : s.thr t <;> rw [hpc] at hin <;> simp [inLos] at hin
+  case rd r =>
+    cases r <;> simp [inLos] at hin
+    case los1 q v f =>
+      have hq : q = p := hin
+      subst hq
+      simp only [step, hpc] at hs
+      split at hs
+      · simp only [rdStep, hf.ev, Option.some.injEq, Prod.mk.injEq] at hs
+        obtain ⟨rfl, rfl⟩ := hs
+        left; exact ⟨rfl, by simp [inLos]⟩
+      · cases hs
+  case want c =>
+    cases c <;> simp [inLos] at hin
+    case los2 q v f =>
+      have hq : q = p := hin
+      subst hq
+      simp only [step, hpc] at hs
+      split at hs
+      · cases hs; left; exact ⟨rfl, by simp [inLos]⟩
+      · cases hs
+  case hold c =>
+    cases c <;> simp [inLos] at hin
+    case los2 q v f =>
+      have hq : q = p := hin
+      subst hq
+      simp only [step, hpc, crit, hf.ev, Option.some.injEq] at hs
+      split at hs
+      · cases hs; left; exact ⟨rfl, by simp [inLos]⟩
+      · cases hs; left; exact ⟨rfl, by simp [inLos]⟩
+  case lzWant q L =>
+    have hq : q = p := hin
+    subst hq
+    simp only [step, hpc] at hs
+    split at hs
+    · cases hs; left; refine ⟨rfl, ?_⟩; simp only [upd_same]; split <;> simp [inLos]
+    · cases hs
+  case lzFn q L =>
+    have hq : q = p := hin
+    subst hq
+    simp only [step, hpc] at hs
+    cases hs; left; exact ⟨rfl, by simp [inLos]⟩
+  case lzRel q L =>
+    have hq : q = p := hin
+    subst hq
+    obtain ⟨hb, hp⟩ := hw.thr_ok t q L (by rw [hpc]; rfl)
+    have hfl := hf.lzs L hb hp
+    simp only [step, hpc, hfl, if_true] at hs
+    cases hs; right; exact ⟨rfl, by simp⟩
+
+/-- Non-vacuity, and the c05j situation on the model: thread 0 creates the lazy object for process 0
+and is inside the failing initialiser; thread 1 arrives and waits on the object (blocked); thread 0
+finishes – the initialiser ran once – releases and returns the error; thread 1 then takes the mutex,
+finds `done`, releases and returns the same error; nothing is stored, nobody holds `l.mu` or the lazy
+mutex, both are idle; a later `Load` finds nothing. -/
+theorem C05.failing_initialiser_nonvacuous :
+    let pre : List Act :=
+      [.call 0 (.loadOrStore 0 4 true), .step 0, .step 0, .step 0, .step 0,       -- t0 inside the initialiser
+       .call 1 (.loadOrStore 0 9 true), .step 1, .step 1, .step 1]                -- t1 before Do, on the same lazy
+    let rest : List Act := [.step 0, .step 0, .step 1, .step 1]
+    (∀ a ∈ pre ++ rest, a.failOnly 0 = true) ∧
+    (run false init pre).thr 0 = .lzFn 0 0 ∧ (run false init pre).thr 1 = .lzWant 0 0 ∧
+    enabled false (run false init pre) 1 = false ∧
+    (run false init (pre ++ rest)).thr 0 = .idle ∧ (run false init (pre ++ rest)).thr 1 = .idle ∧
+    (run false init (pre ++ rest)).inits 0 = 1 ∧ (run false init (pre ++ rest)).eager 0 = none ∧
+    (run false init (pre ++ rest)).mu = none ∧ ((run false init (pre ++ rest)).lz 0).owner = none ∧
+    (run false init (pre ++ rest)).lazy 0 = some 0 := by decide
+
+end FailingInitialiser
